@@ -3,7 +3,7 @@
    are the model's insert_edge / remove_edge1. *)
 From Coq Require Import String ZArith List Bool Lia.
 From XV Require Import Base.Label Base.LSet Base.ODict Base.Attr Base.Outcome Model.Hypergraph Model.SimplicialComplex Model.PyIR
-     Gen.ScMutators Proofs.HgViews Proofs.HgInv Proofs.Combs Proofs.ScInv Proofs.IRLemmas.
+     Gen.ScMutators Proofs.HgViews Proofs.HgInv Proofs.HgInvOps Proofs.Combs Proofs.ScTables Proofs.ScInv Proofs.IRLemmas.
 Import ListNotations.
 Open Scope Z_scope.
 
@@ -193,4 +193,64 @@ Proof.
   unfold add_faces.
   apply (face_loop_ok (mkset ms) (snd hint) Hn Nn).
   apply order_faces_good; [apply NoDup_mkset|exact Hh].
+Qed.
+
+(* ---------- remove_simplex_id(idx), the public method ---------- *)
+Lemma exec_callarg body k en s :
+  exec (SCallArg body k) en s = exec_list body (mkEnv [veval k en] [] LNone [] LNone [] [] None LNone []) s.
+Proof.
+  cbn [exec]. cbv zeta. generalize s. induction body as [|q r IH]; intro s0; [reflexivity|]. cbn [exec_list].
+  destruct (exec q _ s0) as [s' [|y]]; [apply IH|reflexivity].
+Qed.
+
+Lemma callee_present e s : Inv s -> has e (h_edge s) = true ->
+  exec_list src_sc_remove_simplex_id (mkEnv [e] [] LNone [] LNone [] [] None LNone []) s = (st_of (remove_edge1 e s), Ok).
+Proof.
+  intros I H. pose proof (sc_remove_simplex_id_is_source e s I) as R. unfold run_method, run_method_a in R.
+  destruct (exec_list src_sc_remove_simplex_id _ s) as [s' o']. rewrite <- R. cbn [st_of fst].
+  unfold remove_edge1 in R. unfold has in H. destruct (get e (h_edge s)); [|discriminate]. unfold ok in R. injection R as _ ->. reflexivity.
+Qed.
+
+Lemma sup_loop_ok en : forall es s, Inv s -> NoDup es -> (forall e, In e es -> has e (h_edge s) = true) ->
+  iter_list [SCallArg src_sc_remove_simplex_id VLoop] en es s
+  = (fold_left (fun s e => st_of (remove_edge1 e s)) es s, Ok).
+Proof.
+  induction es as [|e es IH]; intros s I ND P; [reflexivity|]. cbn [iter_list fold_left].
+  rewrite exec_list_cons, exec_callarg. change (veval VLoop (with_loop en e)) with e.
+  rewrite (callee_present e s I (P e (or_introl eq_refl))), exec_list_nil.
+  apply NoDup_cons_iff in ND. destruct ND as [Ne ND].
+  apply IH; [apply Inv_remove_edge1; exact I|exact ND|].
+  intros e' He'. unfold has. rewrite remove_edge1_get. destruct (lbl_eqb_spec e' e) as [->|N]; [contradiction|].
+  apply (P e'). right. exact He'.
+Qed.
+
+Lemma NoDup_map_fst_filter {V} (f : lbl * V -> bool) (d : list (lbl * V)) : NoDup (map fst d) -> NoDup (map fst (filter f d)).
+Proof.
+  induction d as [|kv r IH]; cbn [map filter]; intro ND; [constructor|]. apply NoDup_cons_iff in ND. destruct ND as [Nk ND].
+  destruct (f kv); [|apply IH; exact ND]. cbn [map]. constructor; [|apply IH; exact ND].
+  intro H. apply Nk. apply in_map_iff in H. destruct H as (x & E & Hx). apply filter_In in Hx. apply in_map_iff. exists x. tauto.
+Qed.
+
+Theorem sc_remove_simplex_id_public_is_source idx s : Inv s ->
+  run_remove_simplex_id src_sc_remove_simplex_id_public idx
+     (match get idx (h_edge s) with Some ms => supfaces_id s ms | None => [] end) s
+  = remove_simplex_id idx s.
+Proof.
+  intro I. unfold run_remove_simplex_id, remove_simplex_id. destruct (get idx (h_edge s)) as [ms|] eqn:G; [|reflexivity].
+  assert (K : NoDup (keys (h_edge s))) by (destruct I as (_ & (_ & _ & _ & K4) & _); exact K4).
+  unfold src_sc_remove_simplex_id_public.
+  set (en := mkEnv [idx] [] LNone [] LNone [supfaces_id s ms] [] None LNone []).
+  rewrite exec_list_cons, exec_forlocal. change (nth 0 (e_locals en) []) with (supfaces_id s ms).
+  assert (P : forall e, In e (supfaces_id s ms) -> exists m, In (e, m) (h_edge s) /\ strict_sub ms m = true).
+  { intros e He. unfold supfaces_id in He. apply in_map_iff in He. destruct He as ([e' m] & E & Hx). cbn in E. subst e'.
+    apply filter_In in Hx. exists m. exact Hx. }
+  rewrite sup_loop_ok; [|exact I|apply NoDup_map_fst_filter; exact K|].
+  2:{ intros e He. destruct (P e He) as (m & Hm & _). apply has_In. apply in_map_iff. exists (e, m). split; [reflexivity|exact Hm]. }
+  set (s1 := fold_left (fun s e => st_of (remove_edge1 e s)) (supfaces_id s ms) s).
+  rewrite exec_list_cons, exec_callarg. change (veval (VArg 0) en) with idx.
+  assert (Nin : mem idx (supfaces_id s ms) = false).
+  { apply mem_nIn. intro H. destruct (P idx H) as (m & Hm & Hs). rewrite (In_get idx (h_edge s) m K Hm) in G. injection G as ->.
+    unfold strict_sub in Hs. apply andb_true_iff in Hs. destruct Hs as [A B]. rewrite A in B. discriminate. }
+  rewrite callee_present; [rewrite exec_list_nil; reflexivity|apply fold_remove_edge1_Inv; exact I|].
+  unfold has, s1. rewrite fold_remove_edge1_get, Nin, G. reflexivity.
 Qed.
